@@ -257,15 +257,11 @@ Proof. exact np_rollaxis_perm. Qed.
 Theorem C15_plan_perm_is_model_move : forall a b s,
   np_moveaxis a b s = option_map (fun P => np_transpose P s) (move_perm a b (length s)).
 Proof. exact np_moveaxis_perm. Qed.
-(* U: an in-range swap / roll of leading axes, applied to an array with k further (item) axes, permutes the leading
-   axes the same way and leaves the item axes where they are *)
+(* U: an in-range swap / roll / move of leading axes, applied to an array with k further (item) axes, permutes the
+   leading axes the same way and leaves the item axes where they are *)
 Theorem C15_axis_frame : forall o n k P,
-  match o with NMove _ _ => False | _ => True end ->
   nop_inrange o n = true -> nop_perm o n = Some P -> nop_perm o (n + k) = Some (P ++ seq n k).
 Proof. exact nop_frame. Qed.
-(* B: the same for np.moveaxis, leading rank <= 4, up to 2 item axes, all duplicate-free axis lists *)
-Theorem C15_move_frame_B : forallb (fun n => forallb (move_frame_ok n) [0; 1; 2]) [0; 1; 2; 3; 4] = true.
-Proof. exact move_frame_B. Qed.
 (* U: NumPy's normalize_axis_index is "add the rank when negative, then range-check" (the form of the code's prologues) *)
 Theorem C15_norm_axis_as_coded : forall n a,
   norm_axis n a =
@@ -308,5 +304,4 @@ Print Assumptions C15_plan_perm_is_model_swap.
 Print Assumptions C15_plan_perm_is_model_roll.
 Print Assumptions C15_plan_perm_is_model_move.
 Print Assumptions C15_axis_frame.
-Print Assumptions C15_move_frame_B.
 Print Assumptions C15_norm_axis_as_coded.
